@@ -237,6 +237,45 @@ fn cmd_check(args: &[String]) -> i32 {
             }
         }
     }
+    // scenario minimisation: shuttle does not shrink schedules, so re-search smaller scenarios
+    // (fewer waker threads, fewer children) and keep the smallest one that still fails
+    if violations > 0 {
+        let sizes = [(1usize, 1usize), (1, 2), (2, 2), (1, 3), (2, 3), (1, 4), (2, 4)];
+        'outer: for (threads, children) in sizes {
+            for depth in [2usize, 3, 1, 4] {
+                let dir = format!("{}/.l2-{}-min", replays, std::process::id());
+                let _ = std::fs::remove_dir_all(&dir);
+                let _ = std::fs::create_dir_all(&dir);
+                let sch = PctScheduler::new_from_seed(seed ^ (depth as u64) << 8 ^ (threads * 16 + children) as u64, depth, 20_000);
+                let runner = Runner::new(sch, config(Some(&dir)));
+                let r = catch_unwind(AssertUnwindSafe(|| runner.run(move || scenario(mode, threads, children))));
+                if let Err(p) = r {
+                    let msg = p
+                        .downcast_ref::<String>()
+                        .cloned()
+                        .or_else(|| p.downcast_ref::<&str>().map(|s| s.to_string()))
+                        .unwrap_or_else(|| "panic".to_string());
+                    let first = msg.lines().next().unwrap_or("").to_string();
+                    let mut file = String::new();
+                    if let Ok(rd) = std::fs::read_dir(&dir) {
+                        for e in rd.flatten() {
+                            file = e.path().to_string_lossy().to_string();
+                        }
+                    }
+                    let dst = format!("{}/{}-l2-min-{}x{}.schedule", replays, prop, threads, children);
+                    let sched = std::fs::read_to_string(file).unwrap_or_default();
+                    let body = format!(
+                        "# mode={:?}\n# threads={}\n# children={}\n# scheduler=pct{}\n# failure={}\n{}\n",
+                        mode, threads, children, depth, first, sched.trim()
+                    );
+                    let _ = std::fs::write(&dst, body);
+                    println!("VIOLATION property={} replay={}", prop, dst);
+                    println!("  L2 minimised scenario: threads={} children={} (schedule of {} characters): {}", threads, children, sched.trim().len(), first);
+                    break 'outer;
+                }
+            }
+        }
+    }
     // clean scratch dirs
     if let Ok(rd) = std::fs::read_dir(&replays) {
         for e in rd.flatten() {
